@@ -41,6 +41,11 @@ def shards(tier, seed):
         sh.append(dict(stratum='regressive product d=3', cfgs=[c], rp=['S', 2 if tier == 'quick' else 3], nch=1))
     for s in spaces.sig(2):
         sh.append(dict(stratum='regressive product d<=2: ordered tuples <=2 blades', cfgs=[spaces.cfg_sig(s)], rp=['T', 2]))
+    # exact coefficient types (python integers beyond 2**53, Fractions): all clauses on grade blocks and single blades
+    for c in [spaces.cfg_pqr(2, 0, 0), spaces.cfg_pqr(1, 1, 0), spaces.cfg_pqr(3, 0, 0), spaces.cfg_pqr(1, 2, 0), spaces.cfg_pqr(2, 0, 1), spaces.cfg_pqr(4, 0, 0), spaces.cfg_pqr(1, 3, 0),
+              spaces.NAMED['2DPGA']]:
+        sh.append(dict(stratum='exact coefficient types (21-digit integers, Fractions): single blades, grade blocks, dense', cfgs=[c], ops=['B'], values='exact'))
+        sh.append(dict(stratum='exact coefficient types (21-digit integers, Fractions): single blades, grade blocks, dense', cfgs=[c], ops=['G'], values='exact'))
     # custom bases
     cb = []
     for d in (1, 2):
@@ -78,9 +83,18 @@ def ref_to_keys(alg, ref, x):
 
 def check_unary_clauses(alg, ref, cfg, keys, res, shard, unit=False):
     name = cfg_name(cfg)
-    case = {'shard': {'stratum': shard['stratum'], 'cfgs': [cfg], 'ops': ['list', [list(keys)]]}}
+    case = {'shard': {'stratum': shard['stratum'], 'cfgs': [cfg], 'ops': ['list', [list(keys)]], 'values': shard.get('values')}}
     head = f"from kingdon import Algebra\nalg = {cfg_repro(cfg)}\nx = alg.multivector(keys={tuple(keys)}, name='x')\n"
-    x = nmv(alg, keys, [1] * len(keys)) if unit else gmv(alg, keys, 'x')
+    if shard.get('values') == 'exact':
+        # exact coefficient types: 21-digit python integers and Fractions must come back exactly (no detour through floats)
+        from fractions import Fraction
+        vals = [(10 ** 20 + 1 + 2 * i) if i % 2 == 0 else Fraction(10 ** 17 + i, 3) for i in range(len(keys))]
+        x = nmv(alg, keys, vals)
+        head = f"from fractions import Fraction\nfrom kingdon import Algebra\nalg = {cfg_repro(cfg)}\nx = alg.multivector(keys={tuple(keys)}, values={vals!r})\n"
+        unit = False
+        name += ' [exact values]'
+    else:
+        x = nmv(alg, keys, [1] * len(keys)) if unit else gmv(alg, keys, 'x')
     xd = dict(zip(keys, x.values()))
     full = len(alg) - 1
     J = alg.pss
@@ -136,7 +150,8 @@ def check_unary_clauses(alg, ref, cfg, keys, res, shard, unit=False):
         if raised:
             V('polarity:raises', f'polarity raises {raised} in a non-degenerate metric', 'x * J^-1', raised, 'print(x.polarity())')
         else:
-            lit = elem(lambda: x * J.inv(), 'x*Jinv', 'x * J.inv()')
+            # (with exact values the literal form is not asked: kingdon's numeric inverse divides and may return floats)
+            lit = elem(lambda: x * J.inv(), 'x*Jinv', 'x * J.inv()') if shard.get('values') != 'exact' else None
             if lit is not None and eq_elem(p, lit):
                 V('polarity=x*Jinv', 'polarity(x) != x * inverse(pseudoscalar)', show(lit), show(p), 'print(x.polarity(), x*alg.pss.inv())')
             want = ref_to_keys(alg, ref, ref.polarity(mv_to_ref(alg, ref, x)))
